@@ -462,31 +462,36 @@ func drawText(t *rapid.T, k int) string {
 	return s
 }
 
-func TestStringsRandom(t *testing.T) {
-	rapid.Check(t, func(t *rapid.T) {
-		k := rapid.IntRange(0, nCodecs-1).Draw(t, "codec")
-		s := drawText(t, k)
-		c := Case{k, vk.Hex([]byte(s))}
-		v, acc := check(c)
-		rec.Eval()
-		if acc && s != "" {
-			rec.NonTrivial(k, s)
-			rec.Class("random_accepted:" + codecNames[k])
-		} else {
-			rec.Class("random_refused:" + codecNames[k])
+func stringsProp(t *rapid.T) {
+	k := rapid.IntRange(0, nCodecs-1).Draw(t, "codec")
+	s := drawText(t, k)
+	c := Case{k, vk.Hex([]byte(s))}
+	v, acc := check(c)
+	rec.Eval()
+	if acc && s != "" {
+		rec.NonTrivial(k, s)
+		rec.Class("random_accepted:" + codecNames[k])
+	} else {
+		rec.Class("random_refused:" + codecNames[k])
+	}
+	rec.Sample("coding-"+codecNames[k], map[string]any{"codec": codecNames[k], "text": s})
+	first := true
+	rec.ReportSeq(t, "coding", c, func() *vk.Violation {
+		if first {
+			first = false
+			return v
 		}
-		rec.Sample("coding-"+codecNames[k], map[string]any{"codec": codecNames[k], "text": s})
-		first := true
-		rec.ReportSeq(t, "coding", c, func() *vk.Violation {
-			if first {
-				first = false
-				return v
-			}
-			v2, _ := check(c)
-			return v2
-		})
+		v2, _ := check(c)
+		return v2
 	})
 }
+
+func TestStringsRandom(t *testing.T) {
+	rapid.Check(t, stringsProp)
+}
+
+// FuzzStrings: the codec round-trip property driven by the coverage-guided fuzzer (thorough tier).
+func FuzzStrings(f *testing.F) { f.Fuzz(rapid.MakeFuzz(stringsProp)) }
 
 func TestProtocolLevel(t *testing.T) {
 	rapid.Check(t, func(t *rapid.T) {
